@@ -1,6 +1,6 @@
 (** C05 - tail calls run in constant space; deep recursion ends cleanly: property theorems only. *)
 From Coq Require Import ZArith List Bool Arith.
-From ChibiV Require Import C03.Defs C03.Model C05.Spec C05.Model C05.Proofs.
+From ChibiV Require Import C03.Defs C03.Model C05.Spec C05.Model C05.Proofs C05.Frames.
 Import ListNotations.
 
 (** the code generator emits TAIL-CALL exactly at the application sites R7RS 3.5 puts in tail
@@ -81,3 +81,20 @@ Theorem deep_recursion_by_depth : forall k top per n len,
      (len <= len' <= MAX_STACK_SIZE)%Z /\ (0 < k -> (top + (Z.of_nat k - 1) * per + n < len')%Z)).
 Proof. exact Proofs.deep_calls_outcome. Qed.
 Print Assumptions deep_recursion_by_depth.
+
+(** the frame-preservation premise of tail_loop_bounded, for EVERY opcode of the model VM other than
+    CALL / TAIL-CALL / RET / DONE: a step whose operands lie above the frame header (and, for
+    LOCAL-SET, whose target is an argument or a local, not the header) keeps fp and the header *)
+Theorem frame_preserved_by_every_noncall_opcode : forall s s' i,
+  nth_error (code_of (self s)) (ip s) = Some i -> is_ctl i = false ->
+  fp s + 4 + pops i <= length (stk s) -> local_set_ok s i ->
+  step s = Next s' -> chain_step s s'.
+Proof. exact Frames.noncall_step_quiet. Qed.
+Print Assumptions frame_preserved_by_every_noncall_opcode.
+
+(** hence, for ALL n: n steps of the model VM none of which is a CALL or a return (every call a
+    TAIL-CALL, every other instruction working above the header) keep the frame base *)
+Theorem tail_run_bounded : forall n s s' b,
+  base_of s = Some b -> run_ok n s s' -> base_of s' = Some b.
+Proof. exact Frames.tail_run_bounded. Qed.
+Print Assumptions tail_run_bounded.
